@@ -35,9 +35,11 @@ def random_H(rng, degree, n_terms):
     return H
 
 
-def duffing_H(rng):
-    """Confining, strongly nonlinear Hamiltonian (coupled Duffing oscillators): at amplitude 1-2 and tolerances 1e-5..1e-8 the adaptive
-    controllers reject steps, which exercises the bookkeeping of accepted/rejected stages in both twins."""
+def duffing_H(rng, coupled=True):
+    """Confining, strongly nonlinear Hamiltonian (Duffing oscillators): at amplitude 1-3 and tolerances 1e-4..1e-8 the adaptive
+    controllers reject steps, which exercises the bookkeeping of accepted/rejected stages in both twins.  The uncoupled variant is
+    integrable (no chaotic amplification of rounding-level differences between the twins), so it can be driven at amplitude 3 over
+    T up to 24 with loose tolerances — the regime in which the fifth-order controller is observed to reject."""
     H = {}
     for i in range(3):
         k = [0] * 6
@@ -49,8 +51,9 @@ def duffing_H(rng):
         k = [0] * 6
         k[i] = 4
         H[tuple(k)] = 0.25 * rng.uniform(0.5, 2.0)
-    H[(2, 2, 0, 0, 0, 0)] = rng.uniform(0.1, 0.6)
-    H[(0, 2, 2, 0, 0, 0)] = rng.uniform(0.1, 0.6)
+    if coupled:
+        H[(2, 2, 0, 0, 0, 0)] = rng.uniform(0.1, 0.6)
+        H[(0, 2, 2, 0, 0, 0)] = rng.uniform(0.1, 0.6)
     return H
 
 
@@ -126,7 +129,8 @@ def twins(ctx, n_ham, reps):
         # consecutive systems deliberately share name and degree (a memo keyed by anything less than the coefficients would alias them)
         degree = 4 if ih % 3 < 2 else int(rng.integers(3, ctx.pick(6, 9)))
         stiff = (ih % 3 == 1)
-        H = duffing_H(rng) if stiff else random_H(rng, degree, int(rng.integers(3, 10)))
+        uncoupled = stiff and (ih // 3) % 2 == 1
+        H = duffing_H(rng, coupled=not uncoupled) if stiff else random_H(rng, degree, int(rng.integers(3, 10)))
         label = {str(k): round(float(v), 6) for k, v in H.items()}
         hs = pu.hamiltonian_system(H, degree)
         ctx.case("hamiltonian", [ih, ctx.seed, degree, len(H)], nontrivial=True)
@@ -142,8 +146,9 @@ def twins(ctx, n_ham, reps):
         variants = [("fixed", 4), ("fixed", 6), ("fixed", 8), ("adaptive_locked", 5), ("adaptive_locked", 8), ("adaptive_free", 5), ("adaptive_free", 8)]
         for (mode, order) in variants:
             for rep in range(reps):
-                y0 = rng.uniform(-0.25, 0.25, 6) * (6.0 if (stiff and mode != "fixed") else 1.0)
-                T = float(rng.uniform(0.5, 3.0)) * (2.0 if (stiff and mode != "fixed") else 1.0)
+                big = uncoupled and mode == "adaptive_free"
+                y0 = rng.uniform(-0.25, 0.25, 6) * (12.0 if big else 6.0 if (stiff and mode != "fixed") else 1.0)
+                T = float(rng.uniform(0.5, 3.0)) * (8.0 if big else 2.0 if (stiff and mode != "fixed") else 1.0)
                 if mode == "fixed":
                     integ = RungeKutta(order=order)
                     grid = np.linspace(0, T, int(rng.choice([50, 200, 600])))
@@ -154,7 +159,7 @@ def twins(ctx, n_ham, reps):
                     grid = np.sort(np.concatenate([[0.0, T], rng.uniform(0, T, int(rng.choice([0, 5, 80])))]))
                     tol = 1e-11
                 else:
-                    rt = float(10.0 ** (rng.uniform(-8, -5) if stiff else rng.uniform(-11, -6)))
+                    rt = float(10.0 ** (rng.uniform(-6, -4) if big else rng.uniform(-8, -5) if stiff else rng.uniform(-11, -6)))
                     integ = AdaptiveRK(order=order, rtol=rt, atol=rt)
                     grid = np.sort(np.concatenate([[0.0, T], rng.uniform(0, T, int(rng.choice([0, 5, 80]) if not stiff else 300))]))
                     tol = 200 * rt
@@ -222,7 +227,7 @@ def twins(ctx, n_ham, reps):
 def run(ctx):
     ctx.note("rule", "case = one polynomial Hamiltonian (degree<=5 quick / <=8 thorough, random terms incl. q.p coupling) or one twin execution "
                      "(program variant x initial state x grid/tolerance x event x direction); event cases non-trivial when the event is hit")
-    guarded(ctx, "twins", twins, ctx, ctx.pick(3, 40), ctx.pick(2, 4))
+    guarded(ctx, "twins", twins, ctx, ctx.pick(5, 40), ctx.pick(2, 4))
     variants = sorted({c.split(":", 1)[1] for c in ctx.cases if c.startswith("twin:") or c.startswith("twin-event:") or c.startswith("cm-copy:")})
     ctx.note("coverage_extra", {"programs": len(variants),
                                 "disagreements_checked": int(sum(n for c, n in ctx.evals.items() if c[:2] in ("T:", "E:", "C:"))),
